@@ -8,7 +8,7 @@ services by the correspondence check and to the header tables of the source by `
 quantifies over all `trusted_proxies` lists (valid, invalid, empty), all `RemoteAddr` strings, all requests, all header
 lines (any number, any casing, repeated), and every behaviour of `url.Parse` on `X-Forwarded-Uri` (`parse`).
 
-The model of the entry parser is the code with `fixes/C09-1.patch`; `c09_unpatched_trusts_unparsable_peer` states the
+The model of the entry parser is the code with `fixes/C09-1.patch` (in /repo as commit 7f0f8a0); `c09_unpatched_trusts_unparsable_peer` states the
 defect of the unpatched code.
 -/
 namespace Heimdall.Props.C09
@@ -103,9 +103,9 @@ theorem c09_untrusted_of_cover (names : List String) (hcover : ∀ k ∈ readKey
     fun k hk => hget_strip_of_mem names _ k (hcover k hk)
   simp only [serveWith, effective, ht, Bool.false_eq_true, if_false]
   refine ⟨viewOf_of_no_read parse _ r hno, ?_, mechHeaders_keys names _ r hHost⟩
-  rw [upstreamFwd_eq]
-  simp [hno "Forwarded" (by decide), hno "X-Forwarded-For" (by decide), hno "X-Forwarded-Host" (by decide),
-    hno "X-Forwarded-Proto" (by decide), ownForwarded, peerIP]
+  rw [upstreamFwd_eq, hvalues_strip_of_mem names _ _ (hcover "X-Forwarded-For" (by decide)),
+    hvalues_strip_of_mem names _ _ (hcover "Forwarded" (by decide))]
+  simp [joinList, hno "X-Forwarded-Host" (by decide), hno "X-Forwarded-Proto" (by decide), ownForwarded, peerIP]
 
 /-- **Untrusted ⇒ only the actual request counts.** For a peer that is not listed in `trusted_proxies`: method,
 scheme, host, path, query and the client address list are those of the connection and the request line; the upstream
@@ -211,21 +211,46 @@ example :
 /-! ## the upstream of the proxy -/
 
 /-- **Never passed on as received.** For every peer, trusted or not, and every header set: of the forwarded family
-the upstream receives only what rewriteRequest creates — `X-Forwarded-For`, `-Proto`, `-Host` completed with the real
-connection when one of them arrived (from a trusted peer), otherwise one `Forwarded` header ending in the element
-for the real connection. `X-Forwarded-Method`, `-Uri`, `-Path` are never forwarded. -/
+the upstream receives only what rewriteRequest creates — `X-Forwarded-For` (all received lines joined, extended by the
+real peer), `-Proto`, `-Host` (first line, else the real connection) when one of them arrived, otherwise one
+`Forwarded` header (all received lines joined) ending in the element for the real connection.
+`X-Forwarded-Method`, `-Uri`, `-Path` are never forwarded. -/
 theorem c09_upstream_recreated (h : Headers) (r : Req) :
     upstreamFwd h r =
-      if hget h "X-Forwarded-For" ≠ "" ∨ hget h "X-Forwarded-Proto" ≠ "" ∨ hget h "X-Forwarded-Host" ≠ "" then
-        [("X-Forwarded-For", if hget h "X-Forwarded-For" = "" then ipFromHostPort r.remoteAddr
-            else hget h "X-Forwarded-For" ++ ", " ++ ipFromHostPort r.remoteAddr),
+      if joinList (hvalues h "X-Forwarded-For") ≠ "" ∨ hget h "X-Forwarded-Proto" ≠ "" ∨
+          hget h "X-Forwarded-Host" ≠ "" then
+        [("X-Forwarded-For", if joinList (hvalues h "X-Forwarded-For") = "" then ipFromHostPort r.remoteAddr
+            else joinList (hvalues h "X-Forwarded-For") ++ ", " ++ ipFromHostPort r.remoteAddr),
          ("X-Forwarded-Proto", orElse (hget h "X-Forwarded-Proto") (proto r)),
          ("X-Forwarded-Host", orElse (hget h "X-Forwarded-Host") r.host)]
       else
-        [("Forwarded", if hget h "Forwarded" = "" then
+        [("Forwarded", if joinList (hvalues h "Forwarded") = "" then
             "for=" ++ ipFromHostPort r.remoteAddr ++ ";host=" ++ r.host ++ ";proto=" ++ proto r
-          else hget h "Forwarded" ++ ", " ++
+          else joinList (hvalues h "Forwarded") ++ ", " ++
             ("for=" ++ ipFromHostPort r.remoteAddr ++ ";host=" ++ r.host ++ ";proto=" ++ proto r))] :=
   upstreamFwd_eq h r
+
+/-- **Trusted ⇒ the received lists are extended by the peer.** For a listed peer the upstream receives
+`extendedUpstream`: every `X-Forwarded-For` line (any spelling, in order of arrival, joined with `", "`) followed by
+the real peer address, together with `X-Forwarded-Proto` / `-Host` (first line, else the real connection) — or, when
+none of the three arrived, every `Forwarded` line followed by the element for the real connection. -/
+theorem c09_trusted_upstream_extended (parse : UriParse) (proxies : List String) (r : Req)
+    (ht : Listed proxies r.remoteAddr) :
+    (serve parse proxies r).upstream = extendedUpstream r := by
+  have ht' := (c09_trusted_iff_listed _ _).mpr ht
+  simp only [serve, serveWith, effective, ht', if_true]
+  exact upstreamFwd_canonHeaders r
+
+example :
+    let r : Req := ⟨"GET", "svc.local", "/x", "", false, "10.1.2.3:40000",
+      [("x-forwarded-for", "9.9.9.9, 8.8.8.8"), ("Accept", "*/*"), ("X-FORWARDED-FOR", "1.1.1.1"),
+       ("Forwarded", "for=7.7.7.7")]⟩
+    Listed ["10.1.2.3"] r.remoteAddr ∧
+      (serve (fun _ => none) ["10.1.2.3"] r).upstream =
+        [("X-Forwarded-For", "9.9.9.9, 8.8.8.8, 1.1.1.1, 10.1.2.3"), ("X-Forwarded-Proto", "http"),
+         ("X-Forwarded-Host", "svc.local")] ∧
+      (serve (fun _ => none) ["10.1.2.3"] { r with wire := [("forwarded", "for=7.7.7.7"), ("Forwarded", "for=6.6.6.6")] }).upstream =
+        [("Forwarded", "for=7.7.7.7, for=6.6.6.6, for=10.1.2.3;host=svc.local;proto=http")] := by
+  decide
 
 end Heimdall.Props.C09
